@@ -22,25 +22,26 @@ def needs (callee : String) : List String :=
   else ["<unknown conversion>"]
 
 /-- sites whose argument has been matched against a pattern that makes the conversion total:
-    `parse_float_literal` (the lexer's FLOAT rule), `JSONPointer._getitem` (after `_index` accepted the
+    `parse_float_literal` (the lexer's FLOAT rule), `JSONPointer._getitem` / `resolve_parent` (after `_index` accepted the
     token), `RelativeJSONPointer.to` (after `_int_like`), the array branches of the patch operations
-    (after `_target` resolved the token as an index of that array) -/
+    (after `_target` resolved the token as an index of that array). A conversion inside a private helper that the helper
+    does not guard itself is listed by the translator at the helper's call sites (`_insert` at `OpAdd` / `OpMove` /
+    `OpCopy`), so that pulling such a conversion into a helper, or inlining one, leaves this list as it is. -/
 def reviewedUnguarded : List (String × String) :=
-  [("parse.py:Parser.parse_float_literal", "float"), ("pointer.py:JSONPointer._getitem", "int"),
-   ("pointer.py:RelativeJSONPointer.to", "int"), ("patch.py:_insert", "int"), ("patch.py:OpRemove.apply", "int"),
-   ("patch.py:OpReplace.apply", "int"), ("patch.py:OpMove.apply", "int")]
+  [("parse.py:Parser.parse_float_literal", "float"), ("pointer.py:JSONPointer._getitem", "int"), ("pointer.py:JSONPointer.resolve_parent", "int"),
+   ("pointer.py:RelativeJSONPointer.to", "int"), ("patch.py:_insert", "int"), ("patch.py:OpAdd.apply", "int"), ("patch.py:OpCopy.apply", "int"),
+   ("patch.py:OpRemove.apply", "int"), ("patch.py:OpReplace.apply", "int"), ("patch.py:OpMove.apply", "int")]
 
 def guardsOK (tbl : List (String × String × List String)) : Bool :=
   tbl.all fun t =>
     (needs t.2.1).all (fun e => t.2.2.contains e || t.2.2.contains "Exception" || t.2.2.contains "BaseException") ||
     reviewedUnguarded.contains (t.1, t.2.1)
 
-/-- the conversions of the query compiler are all there (so that the statement is not vacuous) -/
-def compilerSitesPresent (tbl : List (String × String × List String)) : Bool :=
-  [("parse.py:Parser._to_int", "int"), ("parse.py:Parser.parse_integer_literal", "int"), ("parse.py:Parser.parse_integer_literal", "float"),
-   ("parse.py:Parser.parse_regex", "re.compile"), ("parse.py:Parser._decode_string_literal", "json.loads"),
-   ("match.py:Match.__call__", "re.fullmatch"), ("search.py:Search.__call__", "re.search")].all
-    fun s => tbl.any (fun t => t.1 == s.1 && t.2.1 == s.2)
+/-- the conversions of the query compiler are all there (so that the statement is not vacuous): per source file, whatever
+    function holds them (`sites` = the (file, conversion) pairs of the table, as the translator lists them) -/
+def compilerSitesPresent (sites : List (String × String)) : Bool :=
+  [("parse.py", "int"), ("parse.py", "float"), ("parse.py", "re.compile"), ("parse.py", "json.loads"),
+   ("match.py", "re.fullmatch"), ("search.py", "re.search")].all sites.contains
 
 end Guards
 end JP
